@@ -175,4 +175,27 @@ def opSvg (prop : String) (args res : List String) : Verdict :=
   | _, "trap" :: _ => { spec := some "to_str-panicked", model := some "trap" }
   | _, _ => {}
 
+/-- `svgcmd <hex> e m v k <margin> => ok <n> <matrix> <svg hex>`: one layer drawn by a custom command that writes its
+arguments into the sub-path: `M<column>,<row>h<module byte>v1`. Expected: one sub-path per dark module in row-major order,
+at (column + margin, row + margin), carrying the symbol's own module byte. -/
+def opSvgCmd (args res : List String) : Verdict :=
+  match args, res with
+  | [_, _, _, _, _, margin], ["ok", n, mat, txt] =>
+    let n := n.toNat!
+    let m := margin.toNat!
+    let a := parseNibbles mat
+    (match bytesToString (parseHexBytes txt) with
+     | none => { spec := some "svg-is-not-utf8" }
+     | some s =>
+       let expected := String.join ((List.range n).flatMap fun y => (List.range n).filterMap fun x =>
+         let b := a.getD (y * n + x) 0
+         if b % 2 == 1 then some s!"M{x + m},{y + m}h{b}v1" else none)
+       let got := match s.splitOn "<path d=\"" with
+         | _ :: rest :: _ => (rest.splitOn "\"").headD ""
+         | _ => "<no path element>"
+       { spec := cmp "custom-command-layer" expected got })
+  | _, "trap" :: _ => { spec := some "to_str-panicked", model := some "trap" }
+  | _, "nobuild" :: _ => {}
+  | _, _ => { spec := some "bad-line" }
+
 end Driver
